@@ -22,7 +22,8 @@ type gen struct {
 	kindsOff     map[string]bool
 	writerFaults float64
 	thorough     bool
-	shared       int  // number of shared values of the plan (shared.go)
+	shared       int // number of shared values of the plan (shared.go)
+	sharedPtr    []bool
 	typeStorm    bool // many operands of many distinct Go types (per-type caches fill and turn over)
 }
 
@@ -173,6 +174,11 @@ func (g *gen) val(depth int, top bool) Val {
 				v.S = Str(g.payload())
 			}
 			return v
+		}
+	}
+	if g.shared > 0 && g.chance(0.1) {
+		if i := g.r.Intn(g.shared); top || !g.sharedPtr[i] {
+			return Val{K: "shared", I: int64(i)}
 		}
 	}
 	x := g.r.Intn(100)
@@ -662,7 +668,10 @@ func generate(prop string, seed int64, tier string) *Plan {
 		// values that several tasks print at the same time
 		g.shared = 1 + g.r.Intn(3)
 		for i := 0; i < g.shared; i++ {
-			p.Shared = append(p.Shared, g.sharedSpec())
+			sp := g.sharedSpec()
+			p.Shared = append(p.Shared, sp)
+			// pointers print as addresses anywhere but in direct operands
+			g.sharedPtr = append(g.sharedPtr, (sp.K == "sbval" && len(sp.V) > 0) || (sp.K == "subbytes" && sp.I == 4))
 		}
 		if nt < 2 {
 			nt = 2 + g.r.Intn(3)
